@@ -1,4 +1,5 @@
 import PlzVerif.Lemmas.Glob
+import PlzVerif.Lemmas.GlobWalk
 import PlzVerif.Generated.C21
 /-!
 C21  glob() returns exactly the files its documented semantics select.
@@ -16,7 +17,9 @@ in subpackages or plz-out, and by default never returns hidden files or anything
 The property as stated is FALSE for the pinned code: seven independent root causes, each with a machine-checked
 witness on `Facts.canon` below.  What is proved for all inputs: the two matchers agree with the segment-wise
 specification on the fragment where none of the matcher defects applies (`C21_match_exact`), the filters are exactly
-the documented ones and sub-package exclusion is by whole components (`C21_returned_iff`, `C21_subpackage_componentwise`).
+the documented ones and sub-package exclusion is by whole components (`C21_returned_iff`, `C21_subpackage_componentwise`),
+and on benign trees the walk plus the sub-package / hidden filters leave exactly the package's owned, visible entries
+(`C21_walk_exact_partial`, `C21_spec_is_selection`).
 -/
 namespace PlzVerif.Props.C21
 open PlzVerif.Walk PlzVerif.Glob PlzVerif.Generated
@@ -193,45 +196,6 @@ example : ∀ n ∈ sampleNames,
 
 /-! ### what holds for every input: the filters -/
 
-theorem foldr_filter_iff (se : Name → Option Bool) : ∀ (cands l : List Name),
-    cands.foldr (fun m acc =>
-      match acc, se m with
-      | some l, some false => some (m :: l)
-      | some l, some true => some l
-      | _, _ => none) (some []) = some l →
-    ∀ m, m ∈ l ↔ m ∈ cands ∧ se m = some false
-  | [], l, h, m => by simp at h; subst h; simp
-  | c :: cands, l, h, m => by
-    simp only [List.foldr_cons] at h
-    generalize hacc : cands.foldr _ (some []) = acc at h
-    cases acc with
-    | none => simp at h
-    | some l' =>
-      have ih := foldr_filter_iff se cands l' hacc m
-      cases hs : se c with
-      | none => simp [hs] at h
-      | some b =>
-        cases b with
-        | false =>
-          simp only [hs, Option.some.injEq] at h; subst h
-          simp only [List.mem_cons, ih]
-          constructor
-          · rintro (rfl | h)
-            · exact ⟨Or.inl rfl, hs⟩
-            · exact ⟨Or.inr h.1, h.2⟩
-          · rintro ⟨rfl | h, h2⟩
-            · exact Or.inl rfl
-            · exact Or.inr ⟨h, h2⟩
-        | true =>
-          simp only [hs, Option.some.injEq] at h; subst h
-          rw [ih]
-          constructor
-          · rintro ⟨h1, h2⟩; exact ⟨List.mem_cons_of_mem _ h1, h2⟩
-          · rintro ⟨h1, h2⟩
-            rcases List.mem_cons.mp h1 with rfl | h1
-            · rw [hs] at h2; simp at h2
-            · exact ⟨h1, h2⟩
-
 /-- **What one include pattern returns, exactly.**  Whenever `globber.glob` succeeds, a name is in its result iff it
     was walked (as a file or directory, or as a symlink when those are included), the compiled matcher accepts it, it
     is not inside (or equal to) a recorded sub-package, it is not hidden by base name unless hidden files were asked
@@ -248,56 +212,44 @@ theorem C21_returned_iff (F : Glob.Facts) (rootName : Name) (w : Walked) (incl :
   simp only [List.mem_filter, Bool.and_eq_true, Bool.not_eq_true', Bool.and_eq_false_imp]
   cases symlinks <;> cases hidden <;> simp [and_assoc, or_and_right]
 
-theorem joinSlash_inj : ∀ (a b : List Name), gpath a = true → gpath b = true → joinSlash a = joinSlash b → a = b
-  | [], [], _, _, _ => rfl
-  | [], c :: cs, _, gb, e => by
-    exact absurd e.symm (joinSlash_ne_nil (c :: cs) (by simp) gb)
-  | c :: cs, [], ga, _, e => by
-    exact absurd e (joinSlash_ne_nil (c :: cs) (by simp) ga)
-  | c :: cs, d :: ds, ga, gb, e => by
-    have hc := gname_noslash (gpath_cons ga).1
-    have hd := gname_noslash (gpath_cons gb).1
-    rw [joinSlash_cons d ds] at e
-    cases ds with
-    | nil =>
-      simp only [List.isEmpty_nil, if_true] at e
-      obtain ⟨e1, e2⟩ := split_first c cs d [] hc hd (Or.inl rfl) (by simpa using e)
-      rcases e2 with ⟨e3, _⟩ | ⟨_, e4⟩
-      · rw [e1, e3]
-      · simp at e4
-    | cons d' ds' =>
-      simp only [List.isEmpty_cons, Bool.false_eq_true, if_false] at e
-      obtain ⟨e1, e2⟩ := split_first c cs d ('/' :: joinSlash (d' :: ds')) hc hd (Or.inr ⟨_, rfl⟩) e
-      rcases e2 with ⟨_, e3⟩ | ⟨_, e4⟩
-      · simp at e3
-      · simp only [List.cons.injEq, true_and] at e4
-        rw [← e1, joinSlash_inj cs (d' :: ds') (gpath_cons ga).2 (gpath_cons gb).2 e4.symm]
-
 /-- **Sub-packages are excluded by whole path components.**  `isInDirectories` (`strings.HasPrefix(name, dir+"/") ||
     name == dir`) holds for a walked path `q` and a recorded sub-package `d` iff `d`'s components are a leading run
     of `q`'s components: a package `pkg/ab` never hides `pkg/abc.txt` (contrast C22). -/
 theorem C21_subpackage_componentwise (d q : List Name) (gd : gpath d = true) (gq : gpath q = true)
     (hd : d ≠ []) (hq : q ≠ []) :
-    isInDirectories (joinSlash q) [joinSlash d] = d.isPrefixOf q := by
-  simp only [isInDirectories, List.any_cons, List.any_nil, Bool.or_false]
-  rw [Bool.eq_iff_iff, Bool.or_eq_true, List.isPrefixOf_iff_prefix, beq_iff_eq, List.isPrefixOf_iff_prefix]
-  constructor
-  · intro h
-    obtain ⟨k, hk, e⟩ := compMatch_of_slash q (joinSlash d) hq (gpath_good gq)
-      (by rcases h with h | h
-          · exact Or.inr h
-          · exact Or.inl h.symm)
-    have gt : gpath (q.take (k + 1)) = true := by
-      simp only [gpath, List.all_eq_true] at gq ⊢
-      exact fun x hx => gq x (List.mem_of_mem_take hx)
-    rw [joinSlash_inj d _ gd gt e]
-    exact List.take_prefix _ _
-  · rintro ⟨t, rfl⟩
-    cases t with
-    | nil => right; simp
-    | cons c t' =>
-      left
-      rw [joinSlash_append d (c :: t') hd (by simp)]
-      exact ⟨joinSlash (c :: t'), by simp⟩
+    isInDirectories (joinSlash q) [joinSlash d] = d.isPrefixOf q :=
+  inDirs_componentwise d q gd gq hd hq
+
+/-! ### what holds for every input: the walk -/
+
+/-- **The walk and the two tree filters, exactly (partial).**  For a package at `root` whose sorted listing is benign
+    (`benF`: in the root package nothing but a top-level directory is named plz-out -- W7; without `hidden` no
+    directory has a hidden name -- W1; sibling names distinct; no directory named like a BUILD file), the names
+    `walkDir` records that survive `isInDirectories(·, subPackages)` and `isHidden` -- other than the package directory
+    itself (W5) -- are *exactly* the paths of the package's owned, visible entries (`ownFo`): entries below the package,
+    not inside a directory that has a BUILD-named entry, not inside the root package's `plz-out`, not hidden; and the
+    symlink bucket holds exactly the symlinks among them.  In particular nothing inside a sub-package or `plz-out` is
+    ever a candidate, and nothing owned and visible is lost -- whatever the order of BUILD files and other entries in
+    the listing (WalkDir's `SkipDir`-for-a-file rule cuts only inside directories that are excluded anyway). -/
+theorem C21_walk_exact_partial (cfg : Cfg) (hidden : Bool) (root : List Name) (cs : Forest)
+    (gr : gpath root = true) (gok : Forest.gok cs.sort = true)
+    (ben : benF cfg hidden root.isEmpty true cs.sort = true)
+    (hroot : cfg.buildNames.contains (lastOr root) = false) (m : Name) (l : Bool) (hm : m ≠ nameOf root) :
+    ((m ∈ (if l then (walkDir facts cfg root (.dir cs)).symlinks else (walkDir facts cfg root (.dir cs)).files)) ∧
+      isInDirectories m (walkDir facts cfg root (.dir cs)).subPackages = false ∧
+      (hidden = true ∨ isHidden facts m = false))
+    ↔ ∃ e, (e, l) ∈ ownFo cfg hidden root.isEmpty [] cs.sort ∧ m = nameOf (root ++ e) :=
+  walk_candidates facts (by rw [facts_eq_canon]; exact ⟨rfl, rfl, rfl⟩) cfg hidden root cs gr gok ben hroot m l hm
+
+-- the hypotheses are satisfiable: package `p` with a file, a nested package, a hidden file and a plain directory
+example : benF bcfg false false true (Forest.sort (fi ['a'] (di ['s'] (fi ['B'] (fi ['x'])) (fi ['.', 'h'] (di ['d'] (fi ['y'])))))) = true ∧
+    Forest.gok (Forest.sort (fi ['a'] (di ['s'] (fi ['B'] (fi ['x'])) (fi ['.', 'h'] (di ['d'] (fi ['y'])))))) = true := by
+  decide
+
+/-- The specification *is* "owned, visible entries selected by the patterns": `specFo` (what the witnesses and the
+    reference oracle compare against) filters `ownFo` by include / exclude patterns and the symlink switch. -/
+theorem C21_spec_is_selection (cfg : Cfg) (q : Query) (top : Bool) (cs : Forest) (rel : List Name) :
+    specFo cfg q top rel cs = ((ownFo cfg q.hidden top rel cs).filter (selects q)).map (·.1) :=
+  specFo_eq_own cfg q top cs rel
 
 end PlzVerif.Props.C21
